@@ -290,12 +290,14 @@ def run_vecenv(case):
 # ------------------------------------------------------------------ buffers
 
 def gen_buffer(rng):
-    cls = rng.choice(["ReplayBuffer", "DictReplayBuffer", "DictReplayBuffer", "RolloutBuffer", "DictRolloutBuffer"])
+    cls = rng.choice(["ReplayBuffer", "DictReplayBuffer", "DictReplayBuffer", "RolloutBuffer", "DictRolloutBuffer", "HerReplayBuffer"])
     return {"what": "buffer", "cls": cls, "n_envs": rng.randint(1, 3), "size": rng.randint(2, 6), "memopt": cls == "ReplayBuffer" and rng.random() < 0.3,
             "n_ops": rng.randint(3, 12), "seed": rng.randint(0, 10**6)}
 
 
 def run_buffer(case):
+    if case["cls"] == "HerReplayBuffer":
+        return run_her(case)
     import random
 
     import numpy as np
@@ -381,6 +383,100 @@ def run_buffer(case):
             break
     live = sorted({(attr, nm) for (_, _, attr, nm) in sharing})
     return problems, live, case["n_ops"]
+
+
+
+class _GoalEnv:
+    """minimal goal env whose reward depends on the info dict (so that retained info dicts matter)"""
+
+    def __new__(cls):
+        import gymnasium as gym
+        import numpy as np
+        from gymnasium import spaces
+
+        class G(gym.Env):
+            observation_space = spaces.Dict({k: spaces.Box(-10, 10, (1,), dtype=np.float32) for k in ("observation", "achieved_goal", "desired_goal")})
+            action_space = spaces.Box(-1, 1, (1,), dtype=np.float32)
+
+            def reset(self, *, seed=None, options=None):
+                return {k: np.zeros(1, dtype=np.float32) for k in self.observation_space.spaces}, {}
+
+            def step(self, a):
+                return {k: np.zeros(1, dtype=np.float32) for k in self.observation_space.spaces}, 0.0, False, False, {}
+
+            def compute_reward(self, ag, dg, info):
+                return np.array([float(i.get("bonus", 0.0)) for i in info], dtype=np.float32) + np.asarray(ag)[..., 0] * 0.0
+
+        return G()
+
+
+def run_her(case):
+    import random
+
+    import numpy as np
+
+    from stable_baselines3.common.vec_env import DummyVecEnv
+    from stable_baselines3.her.her_replay_buffer import HerReplayBuffer
+
+    n = case["n_envs"]
+    r = random.Random(case["seed"])
+
+    def mk():
+        env = DummyVecEnv([_GoalEnv for _ in range(n)])
+        return HerReplayBuffer(case["size"] * 3 * n, env.observation_space, env.action_space, env, device="cpu", n_envs=n,
+                               copy_info_dict=True, n_sampled_goal=4)
+
+    prim, twin = mk(), mk()
+    hp, ht = Holder(), Holder()
+    problems, sharing = [], []
+    t_in_ep = 0
+    for k in range(case["n_ops"] + 4):
+        do_add = k < 4 or r.random() < 0.6
+        vals = [r.randint(-9, 9) for _ in range(4)]
+        outs = []
+        end = t_in_ep >= 2 and (vals[3] % 2 == 0)
+        for buf, holder, is_twin in ((prim, hp, False), (twin, ht, True)):
+            if do_add:
+                def mkobs(b):
+                    return {kk: np.full((n, 1), b, dtype=np.float32) for kk in ("observation", "achieved_goal", "desired_goal")}
+                obs, nxt = mkobs(vals[0]), mkobs(vals[1])
+                infos = [{"bonus": float(vals[2] + i)} for i in range(n)]
+                args = {"obs": obs, "next_obs": nxt, "action": np.full((n, 1), 0.5, dtype=np.float32), "reward": np.zeros(n, dtype=np.float32),
+                        "done": np.array([end] * n)}
+                snap, isnap = copy.deepcopy(args), copy.deepcopy(infos)
+                buf.add(obs, nxt, args["action"], args["reward"], args["done"], infos)
+                if not _same(args, snap) or infos != isnap:
+                    problems.append(("oracle-argument-modified", f"op {k}: HerReplayBuffer.add modified the arrays / info dicts it was handed"))
+                holder.keep(f"op{k}.add", args)
+                if is_twin:
+                    for inf in infos:  # the caller changes the info dicts it passed in
+                        inf["bonus"] = float(SENTINEL)
+                res = {}
+            else:
+                np.random.seed(2000 + k)
+                try:
+                    res = {"batch": buf.sample(6)}
+                except (ValueError, RuntimeError):  # nothing sampleable yet (no finished episode)
+                    res = {}
+                holder.keep(f"op{k}.sample", res)
+            outs.append(copy.deepcopy(res))
+            bad = holder.changed()
+            if bad and not is_twin:
+                problems.append(("oracle-earlier-result-changed-by-later-call", f"op {k} changed objects returned/passed earlier: {bad[:4]}"))
+            if not is_twin:
+                internals = [(a, "HerReplayBuffer." + nm, arr) for (a, nm, arr) in _internal_arrays(buf) if a not in ("env",)]
+                sharing += [(f"op{k}", lab, attr, nm) for (lab, attr, nm) in _shares(holder.items, internals)]
+            else:
+                holder.scribble()
+                holder.items = [(lab, a, a.copy()) for (lab, a, _) in holder.items]
+        if do_add:
+            t_in_ep = 0 if end else t_in_ep + 1
+        if not _same(outs[0], outs[1]):
+            problems.append(("oracle-caller-write-changed-later-result", f"op {k}: twin run (caller overwrote the arrays and info dicts it had passed) sampled different values"))
+        if problems:
+            break
+    live = sorted({(attr, nm) for (_, _, attr, nm) in sharing})
+    return problems, live, case["n_ops"] + 4
 
 
 # ------------------------------------------------------------------ predict
